@@ -205,7 +205,7 @@ let c15_oracle (c : ctl_in) (ctl_text : string) (obs : string) : string =
     end;
     if !fails = [] then "ok" else "fail:" ^ String.concat "," (List.rev !fails)
 
-let c15_line id sel root blocks ctl obs =
+let c15_model q sel root blocks ctl =
   let model_obs =
     match compile (dm_of_string sel) with
     | CErr -> "compile:err"
@@ -214,7 +214,11 @@ let c15_line id sel root blocks ctl obs =
       let g = parse_blocks blocks and r = dm_of_string root in
       let c = parse_ctl ctl in
       let (mc, budget) = model_ctl c in
-      "U" ^ trace_text true (walk_adv pinned g fuel r s) ^ "#R" ^ trace_text true (cwalk_adv pinned mc g fuel budget r s) in
+      "U" ^ trace_text true (walk_adv q g fuel r s) ^ "#R" ^ trace_text true (cwalk_adv q mc g fuel budget r s) in
+  model_obs
+
+let c15_line q id sel root blocks ctl obs =
+  let model_obs = c15_model q sel root blocks ctl in
   let verdict = if model_obs = "compile:unsupported" then "skip" else c15_oracle (parse_ctl ctl) ctl obs in
   print_string id; print_char '\t'; print_string model_obs; print_char '\t'; print_endline verdict
 
@@ -265,14 +269,14 @@ let c14v_oracle (obs : string) : string =
       (String.split_on_char ',' body);
   if !fails = [] then "ok" else "fail:" ^ String.concat "," (List.rev !fails)
 
-let c14v_line id sel root blocks obs =
+let c14v_model q sel root blocks =
   let model_obs =
     match compile (dm_of_string sel) with
     | CErr -> "compile:err"
     | CUnsupported -> "compile:unsupported"
     | COk s ->
       let g = parse_blocks blocks and r = dm_of_string root in
-      let (evs, o) = walk_adv pinned g fuel r s in
+      let (evs, o) = walk_adv q g fuel r s in
       let vs = List.filter_map (fun e ->
           match e with
           | EVisit (p, nd, rs, _) ->
@@ -280,6 +284,10 @@ let c14v_line id sel root blocks obs =
                   get_text g r p ^ ";=;=")
           | ELoad _ -> None) evs in
       String.concat "," vs ^ "|" ^ class_of o in
+  model_obs
+
+let c14v_line q id sel root blocks obs =
+  let model_obs = c14v_model q sel root blocks in
   let verdict = if model_obs = "compile:unsupported" then "skip" else c14v_oracle obs in
   print_string id; print_char '\t'; print_string model_obs; print_char '\t'; print_endline verdict
 
@@ -316,6 +324,10 @@ let quirk_names = ["union_dup"; "bare_edge_panic"; "exhausted_unwrap"; "shared_d
 let quirks_of_mask m =
   { q_union_dup = (m land 1 = 0); q_bare_edge_panic = (m land 2 = 0);
     q_exhausted_unwrap = (m land 4 = 0); q_shared_depth = (m land 8 = 0) }
+(* masks are sets of REPAIRS: bit i set = deviation i switched off *)
+let repairs_of q =
+  (if q.q_union_dup then 0 else 1) lor (if q.q_bare_edge_panic then 0 else 2) lor
+  (if q.q_exhausted_unwrap then 0 else 4) lor (if q.q_shared_depth then 0 else 8)
 let popcount m = (m land 1) + ((m lsr 1) land 1) + ((m lsr 2) land 1) + ((m lsr 3) land 1)
 
 let split_am (obs : string) : (string * string) option =
@@ -326,16 +338,27 @@ let split_am (obs : string) : (string * string) option =
     | _ -> None
   else None
 
-let c07_line id sel root blocks obs =
+(* TRAV_STATS=1: count, on stderr, the cases inside the fragment proved for the code as it is *)
+let stats = (try Sys.getenv "TRAV_STATS" = "1" with Not_found -> false)
+let n_c07 = ref 0 and n_free = ref 0 and n_free_dev = ref 0 and n_dev = ref 0
+
+let c07_line q id sel root blocks obs =
   match compile (dm_of_string sel) with
   | CErr -> print_string id; print_string "\tcompile:err\t"; print_endline (if has_prefix obs "compile:" then "ok" else "fail:compile_rejects")
   | CUnsupported -> print_string id; print_endline "\tcompile:unsupported\tskip"
   | COk s ->
     let g = parse_blocks blocks and r = dm_of_string root in
-    let adv = trace_text false (walk_adv pinned g fuel r s) in
-    let mat = trace_text false (walk_matching pinned g fuel r s) in
+    let adv = trace_text false (walk_adv q g fuel r s) in
+    let mat = trace_text false (walk_matching q g fuel r s) in
     let model_obs = "A" ^ adv ^ "#M" ^ mat in
     let spec = trace_text false (denote_sel g fuel r s) in
+    if stats then begin
+      incr n_c07;
+      let free = walk_quirk_free q g fuel r s in
+      if free then incr n_free;
+      if adv <> spec then incr n_dev;
+      if free && adv <> spec then incr n_free_dev
+    end;
     let verdict =
       match split_am obs with
       | None -> "fail:malformed_obs"
@@ -352,7 +375,8 @@ let c07_line id sel root blocks obs =
             (* the walk is the pinned model's: which repairs make the model meet the specification? *)
             let best = ref None in
             for m = 1 to 15 do
-              if trace_text false (walk_adv (quirks_of_mask m) g fuel r s) = spec then
+              if m land (repairs_of q) = 0 &&
+                 trace_text false (walk_adv (quirks_of_mask (m lor repairs_of q)) g fuel r s) = spec then
                 match !best with
                 | Some b when popcount b <= popcount m -> ()
                 | _ -> best := Some m
@@ -365,15 +389,61 @@ let c07_line id sel root blocks obs =
         if !fails = [] then "ok" else "fail:" ^ String.concat "," (List.rev !fails) in
     print_string id; print_char '\t'; print_string model_obs; print_char '\t'; print_endline verdict
 
+(* ---- which deviations does the tree under test have?  The harnesses emit a fixed corpus first (ids k...) that
+   contains a witness of every deviation; the switch setting that agrees with the implementation on most corpus
+   records (ties: the one closest to [pinned]) is used as "the code as it is" for all records.  On the unchanged
+   tree this is [pinned]; after a fix commit the corresponding switch flips by itself. *)
+let cur_q = ref pinned
+
+let model_of_line q line : (string * string) option =
+  match split_tab line with
+  | _ :: "c15" :: sel :: root :: blocks :: ctl :: obs :: _ -> Some (c15_model q sel root blocks ctl, obs)
+  | _ :: "c14v" :: sel :: root :: blocks :: obs :: _ -> Some (c14v_model q sel root blocks, obs)
+  | _ :: "c07" :: sel :: root :: blocks :: obs :: _ ->
+    (match compile (dm_of_string sel) with
+     | COk s ->
+       let g = parse_blocks blocks and r = dm_of_string root in
+       Some ("A" ^ trace_text false (walk_adv q g fuel r s) ^ "#M" ^ trace_text false (walk_matching q g fuel r s), obs)
+     | _ -> None)
+  | _ -> None
+
+let probe (corpus : string list) : unit =
+  let best = ref (-1, 0) in
+  for m = 0 to 15 do
+    let q = quirks_of_mask m in
+    let agree = List.fold_left (fun acc line ->
+        match (try model_of_line q line with Stack_overflow -> None) with
+        | Some (mo, obs) when mo = obs -> acc + 1
+        | _ -> acc) 0 corpus in
+    let (ba, bm) = !best in
+    if agree > ba || (agree = ba && popcount m < popcount bm) then best := (agree, m)
+  done;
+  cur_q := quirks_of_mask (snd !best)
+
+let process line =
+  try
+    match split_tab line with
+    | id :: "c15" :: sel :: root :: blocks :: ctl :: obs :: _ -> c15_line !cur_q id sel root blocks ctl obs
+    | id :: "c07" :: sel :: root :: blocks :: obs :: _ -> c07_line !cur_q id sel root blocks obs
+    | id :: "c14v" :: sel :: root :: blocks :: obs :: _ -> c14v_line !cur_q id sel root blocks obs
+    | id :: "c14p" :: root :: blocks :: path :: obs :: _ -> c14p_line id root blocks path obs
+    | id :: "c14r" :: segs :: obs :: _ -> c14r_line id segs obs
+    | _ -> ()
+  with Stack_overflow ->
+    (match split_tab line with id :: _ -> print_string id; print_endline "\tmodel:stack_overflow\tskip" | _ -> ())
+
 let () =
+  let corpus = ref [] and probing = ref true in
   iter_lines (fun line ->
-      try
-      match split_tab line with
-      | id :: "c15" :: sel :: root :: blocks :: ctl :: obs :: _ -> c15_line id sel root blocks ctl obs
-      | id :: "c07" :: sel :: root :: blocks :: obs :: _ -> c07_line id sel root blocks obs
-      | id :: "c14v" :: sel :: root :: blocks :: obs :: _ -> c14v_line id sel root blocks obs
-      | id :: "c14p" :: root :: blocks :: path :: obs :: _ -> c14p_line id root blocks path obs
-      | id :: "c14r" :: segs :: obs :: _ -> c14r_line id segs obs
-      | _ -> ()
-      with Stack_overflow ->
-        (match split_tab line with id :: _ -> print_string id; print_endline "\tmodel:stack_overflow\tskip" | _ -> ()))
+      if !probing then begin
+        if String.length line > 0 && line.[0] = 'k' then corpus := line :: !corpus
+        else begin
+          probing := false;
+          let c = List.rev !corpus in
+          probe c; List.iter process c; process line
+        end
+      end else process line);
+  if !probing then begin let c = List.rev !corpus in probe c; List.iter process c end;
+  if stats then
+    Printf.eprintf "c07 cases %d; inside the quirk-free fragment of the tree's setting %d; model deviates from spec %d (of which inside the fragment: %d)\n"
+      !n_c07 !n_free !n_dev !n_free_dev
